@@ -596,8 +596,9 @@ type world struct {
 	rec     *vplugin.Recorder
 	mu      sync.Mutex
 	snap    map[string]taskSnap // env id | role path -> snapshot
-	seq     int
-	retries int
+	seq      int
+	retries  int
+	reoffers int
 }
 
 type taskSnap struct {
@@ -672,8 +673,8 @@ func (w *world) runEnvOnce(in envInput) (gen.Case, bool) {
 	s := w.s
 	// watchdog: a case normally takes milliseconds (a few seconds when the deployment wait
 	// times out); if the core gets stuck, say where and give up instead of hanging the check
-	wd := time.AfterFunc(120*time.Second, func() {
-		fmt.Fprintf(os.Stderr, "h13: environment %d did not finish within 120 s; goroutine dump follows\n", w.seq)
+	wd := time.AfterFunc(60*time.Second, func() {
+		fmt.Fprintf(os.Stderr, "h13: environment %d did not finish within 60 s; goroutine dump follows\n", w.seq)
 		_ = pprof.Lookup("goroutine").WriteTo(os.Stderr, 1)
 		os.Exit(3)
 	})
@@ -705,7 +706,28 @@ func (w *world) runEnvOnce(in envInput) (gen.Case, bool) {
 	w.mu.Unlock()
 	before := len(s.CallsSnapshot())
 	envId := uid.New()
+	// A Mesos master offers unused resources again and again; the simulated one only answers
+	// REVIVE.  Repeat the offers while the creation is under way so that a deployment request
+	// that missed its offers round (a race inside the core that has nothing to do with
+	// channels) is served by the next one instead of waiting for ever.
+	doneCh := make(chan struct{})
+	go func() {
+		tk := time.NewTicker(700 * time.Millisecond)
+		defer tk.Stop()
+		for {
+			select {
+			case <-doneCh:
+				return
+			case <-tk.C:
+				w.mu.Lock()
+				w.reoffers++
+				w.mu.Unlock()
+				s.SendOffers()
+			}
+		}
+	}()
 	_, err := s.Envman.CreateEnvironment(wfName, map[string]string{}, false, envId, false)
+	close(doneCh)
 	calls := s.CallsSnapshot()[before:]
 	w.mu.Lock()
 	snap := w.snap
@@ -1152,6 +1174,7 @@ func main() {
 	if w != nil {
 		extra["environments_created"] = w.seq
 		extra["deploy_retries"] = w.retries
+		extra["offer_rounds_repeated"] = w.reoffers
 	}
 	if err := gen.WriteCases(o, "C13", "From Verif Require Import Channels.", "c13_case", "report13", cases, extra); err != nil {
 		panic(err)
